@@ -93,6 +93,8 @@ def run(chk):
         pool = []
         while len(pool) < n:
             doc = decorate(rng, gen.gen_model(rng, max_demes=5))
+            if rng.random() < 0.4:
+                doc = gen.near_bounds(rng, doc)
             try:
                 with warnings.catch_warnings():
                     warnings.simplefilter("ignore")
